@@ -3,9 +3,18 @@
 
 use std::collections::VecDeque;
 use std::collections::{HashMap, HashSet};
+#[cfg(not(locustdb_verif))]
 use std::sync::atomic::{AtomicBool, Ordering};
+#[cfg(locustdb_verif)]
+use locustdb_simrt::sync::atomic::{AtomicBool, Ordering};
+#[cfg(not(locustdb_verif))]
 use std::sync::{Arc, Condvar, Mutex, RwLock};
+#[cfg(locustdb_verif)]
+use locustdb_simrt::sync::{Arc, Condvar, Mutex, RwLock};
+#[cfg(not(locustdb_verif))]
 use std_semaphore::Semaphore;
+#[cfg(locustdb_verif)]
+use locustdb_simrt::Semaphore;
 
 use crate::disk_store::*;
 use crate::mem_store::partition::ColumnHandle;
@@ -128,6 +137,8 @@ impl DiskReadScheduler {
                     }
 
                     let _token = self.reader_semaphore.access();
+                    #[cfg(locustdb_verif)]
+                    locustdb_simrt::sync_point("load:before_read");
                     match self.disk_store.load_column(
                         &handle.key().table,
                         handle.id(),
@@ -147,6 +158,8 @@ impl DiskReadScheduler {
                         handle.name()
                     );
                 }
+                #[cfg(locustdb_verif)]
+                locustdb_simrt::sync_point("load:after_read");
                 let mut result = None;
                 #[allow(unused_mut)]
                 let mut cols = cols.write().unwrap();
